@@ -253,6 +253,16 @@ def state_of(conn: Connection, strip_time: bool = False, sort_lists: bool = Fals
         s = json.dumps(out, sort_keys=True)
         s = re.sub(r'\\"(started_when|finished_when|timestamp|delay_until|next_execution_time)\\": ?\\?"?[-0-9T:. ]+\\?"?', r'\\"\1\\": T', s)
         out = json.loads(s)
+        # `processing` is a set of message objects: two messages that differ in their timestamps only are two members when time
+        # passed between them (slow subscribers) and one when it did not — with the times stripped they are compared as a set
+        for q in conn.message_broker.queues:
+            seen, uniq = set(), []
+            for m in out[q]["processing"]:
+                k = json.dumps(m, sort_keys=True)
+                if k not in seen:
+                    seen.add(k)
+                    uniq.append(m)
+            out[q]["processing"] = uniq
     return out
 
 
